@@ -85,7 +85,12 @@ pub fn lexical(max: usize) -> BoxedStrategy<String> {
 }
 
 pub fn tags() -> Vec<String> {
-    ["en", "EN", "en-US", "en-us", "fr", "fr-056", "x-priv", "ja-Hani", "De-Latn-DE"]
+    // BCP47 shapes: region (alpha / digits), script, variants, extension singletons (t, u), private use
+    // (also inside a tag), one-letter and eight-letter subtags
+    [
+        "en", "EN", "en-US", "en-us", "fr", "fr-056", "x-priv", "ja-Hani", "De-Latn-DE", "en-t-ja", "de-DE-u-co-phonebk", "en-x-a", "sl-rozaj-biske-1994", "zh-Hant-TW", "de-1996",
+        "es-419", "abcdefgh-Latn",
+    ]
         .iter()
         .map(|s| s.to_string())
         .collect()
